@@ -86,3 +86,24 @@ contract('parso.normalizer.Normalizer.visit_leaf#refactor', params={'self': RN, 
          loops={0: dict(invariant=[], may_be_empty=True)}, call_keys=CK, **TH)
 contract('parso.normalizer.Normalizer._check_type_rules#refactor', params={'self': RN, 'node': 'ref:NodeOrLeaf'},
          requires=['node is not None'], loops={0: dict(invariant=[], may_be_empty=True)}, **TH)
+
+# ---- the entry point: Grammar.refactor -> normalizer.walk(node) -> the spliced text (C19)
+contract('parso.normalizer.Normalizer.initialize', params={'self': 'ref:Normalizer', 'node': 'ref:NodeOrLeaf'}, modifies=[], lists=[],
+         props=['C19'])
+contract('parso.normalizer.Normalizer.finalize', params={'self': 'ref:Normalizer'}, modifies=[], lists=[], props=['C19'])
+contract('parso.normalizer.Normalizer.walk#refactor', params={'self': RN, 'node': 'ref:NodeOrLeaf'}, returns='str',
+         requires=['node is not None', M + ' is not None'],
+         ensures=['result == rcode(%s, node)' % M],
+         call_keys=dict(CK, **{'parso.normalizer.Normalizer.visit': 'parso.normalizer.RefactoringNormalizer.visit'}),
+         theories=['tree', 'splice'], props=['C19'], frame_prune=NO_RULES,
+         frame_dispatch=dict(RN_DISPATCH, initialize=['parso.normalizer.Normalizer.initialize'],
+                             finalize=['parso.normalizer.Normalizer.finalize']))
+contract('parso.normalizer.RefactoringNormalizer.__init__', params={'self': RN, 'node_to_str_map': 'map:ref:str'},
+         ensures=['self._node_to_str_map is node_to_str_map'], modifies=['self._node_to_str_map'], props=['C19'])
+contract('parso.grammar.Grammar.refactor', params={'self': 'ref:Grammar', 'base_node': 'ref:NodeOrLeaf', 'node_to_str_map': 'map:ref:str'},
+         returns='str', requires=['base_node is not None', 'node_to_str_map is not None'],
+         ensures=['result == rcode(node_to_str_map, base_node)'],
+         call_keys={'parso.normalizer.Normalizer.walk': 'parso.normalizer.Normalizer.walk#refactor'},
+         modifies=['_node_to_str_map'], theories=['tree', 'splice'], props=['C19'], frame_prune=NO_RULES,
+         frame_dispatch=dict(RN_DISPATCH, initialize=['parso.normalizer.Normalizer.initialize'],
+                             finalize=['parso.normalizer.Normalizer.finalize']))
